@@ -77,8 +77,17 @@ func selfTest(c *Ctx) (int, error) {
 		rc = append(rc, &RCase{ID: fmt.Sprintf("ST-r%d", i), Family: "reader", Impl: "fastgo", Kind: "flate", Arch: c.Host,
 			Segs: []RSeg{{Stream: st, Src: srcWith(RSource{Kind: "bufio", BufSize: 4096}, []int{100}), Reads: []int{700}, Multi: true}}})
 	}
+	for _, x := range rc {
+		x.(*RCase).Mech = true
+	}
 	rtrace, err := c.Execute("st-r", rc, false)
 	if err != nil {
+		return 0, err
+	}
+	if err := c.corruptAndExpect(rtrace, "ReaderMechTrace", "TV_ReaderMech.cfg", []fieldEdit{
+		{ev: "RMech", when: func(m map[string]interface{}) bool { return m["m"] == "disc" }, field: "a", fn: func(v interface{}) interface{} { return v.(float64) + 1 }, clause: "discard_arithmetic"},
+		{ev: "RMech", when: func(m map[string]interface{}) bool { return m["m"] == "wait" }, field: "c", fn: func(v interface{}) interface{} { return 1.0 }, clause: "no_wait_at_end_of_stream"},
+	}); err != nil {
 		return 0, err
 	}
 	if err := c.corruptAndExpect(rtrace, "ReaderTrace", "TV_Reader.cfg", []fieldEdit{
